@@ -8,7 +8,7 @@ from ..consteval import try_fold
 from ..envelopes import envelope_call
 from ..flow import ANY_EXC
 from ..model import AnalysisError, ClassInfo, FuncInfo, Project, call_name, walk_local
-from ..paths import PState, PathAnalysis, run_paths, subst_text, calls_in_order
+from ..paths import PState, PathAnalysis, run_paths, subst, subst_text, calls_in_order
 from ..report import Report
 
 
@@ -97,12 +97,12 @@ def check(P: Project, R: Report) -> None:
             b = {p: a for p, a in zip([x for x in hf.positional_params() if x != "self"], call.args)}
             b.update({k.arg: k.value for k in call.keywords if k.arg})
             idt = subst_text(b[idp], st) if idp in b else "<none>"
-            code = try_fold(P, hm.module, b.get("code")) if b.get("code") is not None else None
+            code = try_fold(P, hm.module, subst(b.get("code"), st)) if b.get("code") is not None else None
             return f"reply:{nm0[5:]}:{idt}:{code}"
         env = envelope_call(P, hm, call)
         if env is not None:
             idt = subst_text(env["id"], st) if env.get("id") is not None else "<none>"
-            code = try_fold(P, hm.module, env["code"]) if env.get("code") is not None else None
+            code = try_fold(P, hm.module, subst(env["code"], st)) if env.get("code") is not None else None
             sites.append((call, st, env, idt, code))
             return f"envelope:{env['kind']}:{idt}:{code}"
         if isinstance(call.func, ast.Name):
@@ -120,6 +120,8 @@ def check(P: Project, R: Report) -> None:
     R.need(sites or delegated, "anchor: handle_message builds no envelope and delegates to no reply helper")
     for call, st, env, idt, code in sites:
         in_except = any(call in list(walk_local(h)) for t in walk_local(hm.node) if isinstance(t, ast.Try) for h in t.handlers)
+        # … or built after the try on a path that carries a caught exception object (`failure = e` … `if failure is not None:`)
+        in_except = in_except or any(l.endswith(" is not None") and an.defs.get(l[: -len(" is not None")], ("",))[0] == "caught" for l in st.lits)
         key = f"{env['kind']} envelope code {code}" + (" (in except block)" if in_except else "")
         R.ob("R1", key + ": id is non-null on the path", nonnull(st, idt), f"{hm.module.rel}:{call.lineno}",
              f"id term `{idt}` reaches the envelope with no `is not None` literal (literals {sorted(l[:50] for l in st.lits)})",
@@ -192,21 +194,27 @@ def check(P: Project, R: Report) -> None:
 
     # handlers: every return of a library handler carries the message's id
     handlers = []
-    for f in P.methods(ph).values():
-        for n in walk_local(f.node):
-            if isinstance(n, ast.Dict):
-                for k, v in zip(n.keys, n.values):
-                    if isinstance(k, ast.Constant) and isinstance(k.value, str) and isinstance(v, ast.Attribute) and ast.unparse(v.value) == "self":
-                        m = P.lookup_method(ph, v.attr)
-                        if m is not None:
-                            handlers.append((k.value, m))
     srv = P.cls(A.MOD_SERVER, "MCPServer")
-    for f in P.methods(srv).values():
-        for c in walk_local(f.node):
-            if isinstance(c, ast.Call) and call_name(c).endswith(".register_method") and len(c.args) == 2 and isinstance(c.args[0], ast.Constant) and isinstance(c.args[1], ast.Attribute):
-                m = P.lookup_method(srv, c.args[1].attr)
-                if m is not None:
-                    handlers.append((c.args[0].value, m))
+    # registrations, in whatever spelling: a dict display {"name": self.h}, `self.<table>["name"] = self.h`,
+    # `….register_method("name", self.h)` — in the protocol handler, the server, or a mixin the server inherits
+    seen_reg = set()
+    for owner in (ph, srv):
+        for f in P.methods(owner).values():
+            for n in walk_local(f.node):
+                pairs = []
+                if isinstance(n, ast.Dict):
+                    pairs = [(k, v) for k, v in zip(n.keys, n.values)]
+                elif isinstance(n, ast.Assign) and len(n.targets) == 1 and isinstance(n.targets[0], ast.Subscript) and ast.unparse(n.targets[0].value).startswith("self."):
+                    pairs = [(n.targets[0].slice, n.value)]
+                elif isinstance(n, ast.Call) and call_name(n).endswith(".register_method") and len(n.args) == 2:
+                    pairs = [(n.args[0], n.args[1])]
+                for k, v in pairs:
+                    kv = try_fold(P, f.module, k) if k is not None else None
+                    if isinstance(kv, str) and isinstance(v, ast.Attribute) and ast.unparse(v.value) == "self":
+                        m = P.lookup_method(owner, v.attr)
+                        if m is not None and (kv, m.fq) not in seen_reg:
+                            seen_reg.add((kv, m.fq))
+                            handlers.append((kv, m))
     R.need(len(handlers) >= 6, f"only {len(handlers)} registered library handlers found (7 confirmed by hand)")
     R.extra["library_handlers"] = [f"{name} -> {m.fq}" for name, m in handlers]
     for name, m in handlers:
@@ -244,7 +252,7 @@ def check(P: Project, R: Report) -> None:
             unknown = [l for l in st.lits if " not in self._" in l]
             if unknown and env["kind"] == "error":
                 R.ob("R4", f"{name}: unknown name → -32602", code == -32602, f"{m.module.rel}:{call.lineno}", f"code {code} under `{unknown[0][:60]}`", sample=f"R4 {name}: {unknown[0][:50]} → {code}")
-            in_except = any(call in list(walk_local(h)) for t in walk_local(m.node) if isinstance(t, ast.Try) for h in t.handlers)
+            in_except = any(call in list(walk_local(h)) for t in walk_local(m.node) if isinstance(t, ast.Try) for h in t.handlers if not (h.type is not None and ast.unparse(h.type) in ("KeyError", "LookupError")))
             if in_except and env["kind"] == "error":
                 R.ob("R4", f"{name}: failing tool/resource handler → -32603", code == -32603, f"{m.module.rel}:{call.lineno}", f"code {code}")
         # user callables are invoked inside a try covering Exception
@@ -257,6 +265,15 @@ def check(P: Project, R: Report) -> None:
         for c in walk_local(m.node):
             if isinstance(c, ast.Subscript) and isinstance(c.value, ast.Attribute) and c.value.attr in ("_tools", "_resources") and isinstance(c.ctx, ast.Load) and isinstance(c.slice, ast.Name):
                 guard = any(isinstance(i, ast.If) and ast.unparse(i.test) == f"{c.slice.id} not in self.{c.value.attr}" for i in walk_local(m.node))
+                # … or EAFP: the lookup sits in a try whose KeyError/LookupError arm answers -32602
+                for t in walk_local(m.node):
+                    if isinstance(t, ast.Try) and any(c in list(walk_local(s_)) for s_ in t.body):
+                        for h in t.handlers:
+                            if h.type is not None and ast.unparse(h.type) in ("KeyError", "LookupError"):
+                                codes = [cd for cl, _st, en, _i, cd in hsites if en["kind"] == "error" and any(cl is x for s_ in h.body for x in walk_local(s_))]
+                                if codes:
+                                    guard = True
+                                    R.ob("R4", f"{name}: unknown name → -32602", all(cd == -32602 for cd in codes), f"{m.module.rel}:{h.lineno}", f"codes {codes} in the KeyError arm", sample=f"R4 {name}: KeyError arm → {codes}")
                 R.ob("R4", f"{name}: registry lookup guarded by a membership test", guard, f"{m.module.rel}:{c.lineno}", "")
 
     # R4 in the dispatcher
@@ -264,6 +281,7 @@ def check(P: Project, R: Report) -> None:
         if env["kind"] != "error":
             continue
         in_except = any(call in list(walk_local(h)) for t in walk_local(hm.node) if isinstance(t, ast.Try) for h in t.handlers)
+        in_except = in_except or any(l.endswith(" is not None") and an.defs.get(l[: -len(" is not None")], ("",))[0] == "caught" for l in st.lits)
         miss = any(l.startswith("not ") and "_handlers.get" in an.origin(l) for l in st.lits) or any("handler" in l and l.startswith("not ") for l in st.lits)
         no_method = any(l.startswith("not getattr(") and "'method'" in l for l in st.lits)
         where = f"{hm.module.rel}:{call.lineno}"
